@@ -146,7 +146,7 @@ def layout_collisions(layout):
     coll = []
     for name, lines in m:
         low = {}
-        for ln in lines:
+        for ln in sorted(lines):
             low.setdefault(ln.lower(), []).append(ln)
             seen.setdefault(ln.lower(), []).append(name)
         coll += [v[0] for v in low.values() if len(v) > 1]
